@@ -229,6 +229,54 @@ def _etod_expected(m, level, mode):
     return ("addSuccess", [T_], mode == "details" and level == "extended")
 
 
+def check_details_text(ctx, etod):
+    """Degradation of details to an old-style exc_info: the synthetic exception's text is derived from *every* detail
+    (text details by their text, binary / empty ones by name), the traceback included -- decided on an abstract run
+    of _details_to_exc_info (and the helpers it uses) with four symbolic contents whose texts are known constants."""
+    from .. import effects
+    from ..absint import NONE as A_NONE, State
+    f = etod.methods.get("_details_to_exc_info")
+    if f is None:
+        raise AnalysisError("anchor vanished: ExtendedToOriginalDecorator._details_to_exc_info")
+    texts = {"tb": "TRACEBACK-TEXT", "log": "LOG-TEXT", "blob": None, "nothing": "   "}
+    attrs = {"self": ("self",)}
+    for name, text in texts.items():
+        attrs[f"{name}.content_type"] = ("wobj", name + "-type")
+        attrs[f"{name}-type.type"] = ("const", "text" if text is not None else "application")
+
+    def oracle(n, pos, kw):
+        obj, _, meth = n.partition(".")
+        if obj in texts and meth == "as_text":
+            return [("val", ("const", texts[obj] or ""))]
+        if obj in texts and meth == "iter_text":
+            return [("val", ("tuple", ("const", texts[obj] or "")))]
+        return None
+
+    details = ("kwdict", (("traceback", ("wobj", "tb")), ("log", ("wobj", "log")), ("blob", ("wobj", "blob")), ("nothing", ("wobj", "nothing"))))
+    dom = effects.EffectDomain(ctx.classes, attrs=attrs, oracle=oracle, ctors={"_StringException"}, log_cap=30)
+    res = effects.run(ctx, dom, f, etod, {f.args.args[1].arg: details}, state=State(), depth=4)
+    problems = set()
+    if not res:
+        problems.add("no path explored")
+    for r in res:
+        v = r.value if r.kind == "val" else None
+        text = None
+        if isinstance(v, tuple) and v[:1] == ("tuple",) and len(v) == 4 and isinstance(v[2], tuple) and v[2][:2] == ("new", "_StringException") and v[2][2]:
+            t = v[2][2][0]
+            if isinstance(t, tuple) and t[:1] == ("const",) and isinstance(t[1], str):
+                text = t[1]
+            elif isinstance(t, tuple) and t[:1] == ("concat",):
+                text = "".join(x[1] if isinstance(x, tuple) and x[:1] == ("const",) and isinstance(x[1], str) else "\x00" for x in t[1:])   # the known pieces of the text
+        if text is None:
+            problems.add(f"_details_to_exc_info gives {r.kind} {str(r.value)[:120]}; expected (_StringException, _StringException(<text of the details>), None)")
+            continue
+        for name, want in (("traceback", "TRACEBACK-TEXT"), ("log", "LOG-TEXT"), ("blob", "blob"), ("nothing", "nothing")):
+            if want not in text:
+                problems.add(f"the detail {name!r} does not appear in the synthetic exception's text: an old-style result loses it")
+    ctx.check("R-DEGRADE-TABLE", "details given to an old-style result: every detail (text, binary, empty, traceback) reaches the synthetic exception's text", f, not problems,
+              "; ".join(sorted(problems)), examined=len(res), construct=f"{REAL}:ExtendedToOriginalDecorator._details_to_exc_info::all-details")
+
+
 def check_etod_semantics(ctx, etod):
     from .. import effects
     classes = ctx.classes
@@ -400,6 +448,7 @@ def run(ctx):
     # also lacks addSkip / addExpectedFailure / addUnexpectedSuccess (2.6-style)
     etod = classes.get(REAL, "ExtendedToOriginalDecorator")
     check_etod_semantics(ctx, etod)
+    check_details_text(ctx, etod)
     ctx.floor("R-ETOD-FALLBACK", 14)
     # _details_to_exc_info builds the synthetic exception from the details text
     dte = own_method(ctx, REAL, "ExtendedToOriginalDecorator", "_details_to_exc_info")
